@@ -62,6 +62,11 @@ THEOREMS = [
     "SleapVerif.C20.head_dict_places",
     "SleapVerif.C20.builder_complete_nested",
     "SleapVerif.C20.train_cfg_eq_builders",
+    "SleapVerif.C20.assign_verdict_eq_construct",
+    "SleapVerif.C20.assign_accepts_only_valid",
+    "SleapVerif.C20.assign_rejects_nan",
+    "SleapVerif.C20.assign_checks_old_counterexample",
+    "SleapVerif.C20.assign_checks_old_only",
     "SleapVerif.C20.convnext_model_type_rejected",
     "SleapVerif.C20.geometric_scale_counterexample",
     "SleapVerif.C20.backbone_dict_drops_second_counterexample",
@@ -472,6 +477,35 @@ class Impl:
         r = call(go)
         return [line], (("raise", r[1]) if r[0] == "raise" else ("ok", tag(r[1])))
 
+    # ---- attribute assignment on existing objects
+    def assign_target(self, src):
+        """the object a case assigns to: a freshly constructed default object of the class, or a node of what a
+        builder returns (built anew for every case)"""
+        import copy
+
+        if src == "default":
+            return None
+        obj = getattr(self.tr, f"get_{src['builder']}_config")(**copy.deepcopy(src["kw"]))
+        for k in src["path"]:
+            obj = getattr(obj, k)
+        return obj
+
+    def run_assign(self, case):
+        import attrs
+
+        cls = self.classes[case["cls"]]
+        obj = cls() if case["src"] == "default" else self.assign_target(case["src"])
+        assert type(obj) is cls, (type(obj), cls)
+        f, v = case["field"], self.case_kwargs({"kw": {"v": case["value"]}})["v"]
+        kwt = {} if case["src"] == "default" else tag(self.structured(obj))
+        line = f"assign {case['cls']} {enc(f)} {toks(kwt)} {toks(targ(v))}"
+        old = tag(getattr(obj, f))
+        ctor = call(attrs.evolve, obj, **{f: v})          # the constructor, same other fields
+        r = call(setattr, obj, f, v)
+        now = tag(getattr(obj, f))
+        self.last_assign = {"ctor": ("ok",) if ctor[0] == "ok" else ("raise", ctor[1]), "old": old, "now": now, "new": tag(v)}
+        return [line], (("raise", r[1]) if r[0] == "raise" else ("ok", now))
+
     def run_train(self, kw):
         """the real `train()` with `run_training` replaced, for the duration of the call, by a recorder
         (harness-side; nothing in /repo changes): what configuration would training start from?"""
@@ -543,6 +577,10 @@ class Impl:
         if op == "trainer":
             full = self.full_args(tr.get_trainer_config, case["kw"])
             return [f"trainer {toks(targ(full))}"], self.observe(tr.get_trainer_config, **case["kw"])
+        if op == "assign":
+            lines, res = self.run_assign(case)
+            case["_assign"] = self.last_assign
+            return lines, res
         if op == "train":
             full = {}
             for k in ("data", "model", "trainer"):
@@ -1431,6 +1469,62 @@ def which_cases(chk: Check):
 SCHEMA_CLASSES = []      # filled in main from the working tree (every attrs class that has a no-argument constructor)
 
 
+def assign_cases(chk: Check, impl: Impl):
+    """obj.field = value for EVERY attrs config class and EVERY field with a validator (by introspection), for every
+    value of the invalid-value stream and the valid boundary values, on (a) a fresh default object and (b) every node of
+    that class inside what the three builders return"""
+    import attrs
+
+    validated = {}
+    for n, c in sorted(impl.classes.items()):
+        fs = [a.name for a in attrs.fields(c) if a.validator is not None]
+        if fs:
+            validated[n] = fs
+    extra = {}
+    for cls, f, bads, _ in INVALID:
+        extra.setdefault((cls, f), []).extend(bads)
+    for cls, f, goods in VALID_EDGE:
+        extra.setdefault((cls, f), []).extend(goods)
+    extra[("ModelConfig", "pre_trained_weights")] = ["Swin_T_Weights", "ConvNeXt_Tiny_Weights", "bogus", None]
+
+    def values(cls, f):
+        vs = [v for v, _, _ in EDGE_VALUES] + extra.get((cls, f), [])
+        return vs
+
+    D = {"train_labels_path": "t.slp", "val_labels_path": "v.slp"}
+    builders = [
+        ("data", {**D, "use_augmentations_train": True, "intensity_aug": ["contrast"], "geometry_aug": ["rotation", "mixup"]}),
+        ("model", {"backbone_config": "swint", "head_configs": "bottomup"}),
+        ("model", {"backbone_config": {"convnext": {"model_type": "small"}}, "head_configs": "centroid",
+                   "pre_trained_weights": "ConvNeXt_Small_Weights"}),
+        ("model", {"backbone_config": "unet_medium_rf"}),
+        ("trainer", {"lr_scheduler": "step_lr", "early_stopping": True}),
+        ("trainer", {"lr_scheduler": {"reduce_lr_on_plateau": {"min_lr": 1e-6}}, "trainer_num_devices": 2}),
+    ]
+
+    def nodes(obj, path=()):
+        if hasattr(obj, "__attrs_attrs__"):
+            yield path, obj
+            for a in obj.__attrs_attrs__:
+                yield from nodes(getattr(obj, a.name), path + (a.name,))
+
+    for cls, fs in validated.items():
+        for f in fs:
+            for v in values(cls, f):
+                yield {"op": "assign", "cls": cls, "src": "default", "field": f, "value": v}
+    for b, kw in builders:
+        root = getattr(impl.tr, f"get_{b}_config")(**kw)
+        for path, node in nodes(root):
+            cls = type(node).__name__
+            for f in validated.get(cls, []):
+                vs = values(cls, f)
+                if not chk.thorough:
+                    vs = vs[:13:2] + vs[13:]          # every other edge value + all field-specific ones
+                for v in vs:
+                    yield {"op": "assign", "cls": cls, "src": {"builder": b, "kw": kw, "path": list(path)},
+                           "field": f, "value": v}
+
+
 def train_cases(chk: Check, impl: Impl):
     """the public entry point: every optional parameter of train()'s signature ALONE (list derived by introspection, so
     a new parameter is picked up), plus random subsets"""
@@ -1648,6 +1742,7 @@ def build_cases(chk: Check, impl: Impl):
     cases += list(edge_cases())
     cases += list(number_cases())
     cases += list(train_cases(chk, impl))
+    cases += list(assign_cases(chk, impl))
     cases += list(which_cases(chk))
     # --- merge on arbitrary trees (OmegaConf.merge itself)
     cases += [{"op": "merge", "s": {"a": 1, "b": {"c": "x"}}, "c": {"b": {"c": "y", "d": None}, "e": [1, 0.5]}},
@@ -1830,6 +1925,8 @@ def classify(case):
         return [f"oneof-after-assignment:{case['mode']}"]
     if op == "train":
         return [f"train:{case.get('kind', 'random')}"]
+    if op == "assign":
+        return ["assign:" + ("default-object" if case["src"] == "default" else "builder-result")]
     if op in ("ctor", "bctor"):
         return [f"edge:{op}:{'yaml' if case.get('yaml') else 'py'}:{case.get('expect') or 'no-expectation'}"]
     if op in ("mk", "oneof") or "expect" in case:
@@ -1878,6 +1975,25 @@ def check_case(chk: Check, impl: Impl, case, lines, ires, model_lines):
             why = f"valid value rejected for {case['field']}: {ires[1]}"
     elif op == "verify":
         why = oracle_verify(impl, case["cfg"])
+    elif op == "assign":
+        a = case.pop("_assign")
+        jcase.pop("_assign", None)
+        where = f"{case['cls']}()" if case["src"] == "default" else \
+            describe({"op": case["src"]["builder"], "kw": case["src"]["kw"]}) + "".join("." + k for k in case["src"]["path"])
+        stmt = f"obj = {where}; obj.{case['field']} = {case['value']!r}"
+        fld = f"{case['cls']}.{case['field']}"
+        if a["ctor"][0] == "raise" and ires[0] == "ok":
+            why = f"{stmt} is accepted (stored {untag_s(a['now'])}) although the constructor rejects that value ({a['ctor'][1]})"
+        elif a["ctor"][0] == "ok" and ires[0] == "raise":
+            why = f"{stmt} raises {ires[1]} although the constructor accepts that value"
+        elif a["ctor"][0] == "raise" and ires[0] == "raise" and a["ctor"][1] != ires[1]:
+            why = f"{stmt} raises {ires[1]}, the constructor raises {a['ctor'][1]}"
+        elif ires[0] == "raise" and a["now"] != a["old"]:
+            why = f"{stmt} raised {ires[1]} but the field changed from {untag_s(a['old'])} to {untag_s(a['now'])}"
+        elif ires[0] == "ok" and a["now"] != a["new"]:
+            why = f"{stmt} succeeded but the field holds {untag_s(a['now'])}"
+        if why and not validator_uses_value(impl, fld):
+            sigs = ["assignment_validates_old_value"]
     elif op == "train":
         comp = impl.compose_builders(case["kw"])
         if comp != ires:
@@ -1948,6 +2064,29 @@ def check_history(chk: Check, impl: Impl, case, jcase, key, outs, mres):
                          {"history": jcase, "call": i}, show(o), show(m))
             break
     return agree
+
+
+def untag_s(t):
+    try:
+        return repr(untag(t))
+    except Exception:
+        return repr(t)
+
+
+def validator_uses_value(impl: Impl, fld):
+    """does the field's validator look at the value it is given?  (a lambda / function that never loads its third
+    parameter validates something else — `self.<field>`, which during an assignment is still the OLD value)"""
+    import dis
+
+    cls, f = fld.split(".")
+    a = next(x for x in impl.classes[cls].__attrs_attrs__ if x.name == f)
+    v = a.validator
+    code = getattr(v, "__code__", None)
+    if code is None or code.co_argcount < 3:
+        return True
+    third = code.co_varnames[2]
+    return any(i.opname.startswith("LOAD_FAST") and third in (i.argval if isinstance(i.argval, tuple) else (i.argval,))
+               for i in dis.get_instructions(code))
 
 
 def field_has_validator(impl: Impl, fld):
